@@ -30,7 +30,7 @@ RULE = ('bool: 12 documented words x EVERY letter-case spelling (82) x 11 paddin
         'alphabets, non-str types; is_uuid_like: random 128-bit values x 7 decorations x 3 cases, hex length '
         '30..34, one non-hex character per position class; generate_uuid draws. distinct by (function, input, '
         'settings); non-trivial = everything except the plain lower-case unpadded word / in-range int cases')
-REQUIRED_CLAUSES = ['under-lazy-translation', 'documented-keyword-call', 'bool-true-word', 'bool-false-word', 'bool-default', 'bool-strict-raises',
+REQUIRED_CLAUSES = ['concurrent-calls-answer-as-alone', 'under-lazy-translation', 'documented-keyword-call', 'bool-true-word', 'bool-false-word', 'bool-default', 'bool-strict-raises',
                     'bool-passthrough', 'boolstr-unpadded', 'boolstr-agrees-with-strict',
                     'int-from-bool', 'intlike-accept', 'intlike-reject', 'vint-returns',
                     'vint-raises', 'vint-noncanonical', 'csl-type', 'csl-raises', 'csl-ok',
@@ -47,6 +47,7 @@ ASSUMPTIONS = ['"whitespace" padding is drawn from space, tab, newline, CR, VT, 
                'integers with more than 4300 digits (CPython int/str conversion limit) are DONT-CARE',
                'distinctness of generate_uuid output is checked within one worker process']
 INTERPRETER_FLAGS = [[], ['-O']]      # -bb not used here: the inputs mix str and bytes keys/subjects (DONT-CARE zone), where the pinned tree itself compares or str()s bytes
+CONCURRENT = lambda case: case.get('digit_limit') is None          # (that mode changes a process-wide setting)
 SHARDS = {'quick': 4, 'thorough': 16}
 MIN_DISTINCT = {'quick': 5000, 'thorough': 50000}
 
@@ -912,6 +913,20 @@ def gen_cases(ctx):
                          rseed='%s/gen/%d/%d' % (ctx.seed, ctx.shard, i)))
     return plan
 
+
+
+def HAMMER(ctx):
+    from oslo_utils import strutils as su, uuidutils as uu
+    out = []
+    for v in ('true', 'OFF', ' yes ', 'maybe', '1', '0'):
+        out.append(('bool_from_string(%r)' % v, lambda t=v: su.bool_from_string(t)))
+        out.append(('is_valid_boolstr(%r)' % v, lambda t=v: su.is_valid_boolstr(t)))
+    for v in ('12', '-7', '007', '1.0', 'x', 12):
+        out.append(('is_int_like(%r)' % (v,), lambda t=v: su.is_int_like(t)))
+        out.append(('validate_integer(%r, 0, 100)' % (v,), lambda t=v: su.validate_integer(t, 'f', 0, 100)))
+    for v in ('12345678-1234-5678-1234-567812345678', '{12345678123456781234567812345678}', 'urn:uuid:12345678123456781234567812345678', 'zz'):
+        out.append(('is_uuid_like(%r)' % v, lambda t=v: uu.is_uuid_like(t)))
+    return out
 
 def run(ctx):
     idx = 0
